@@ -216,6 +216,15 @@ def stepTranslate (ws : List String) : Option String :=
     some (encNumLit (numHandlerParseStr true (decStr s)).1 ++ " " ++ encNumLit (numHandlerParseStr false (decStr s)).1)
   | ["jsnum", s] => some (encNumLit (jsNumber (decStr s)))
   | ["numhandler", startInt, l] => some (" ".intercalate ((numHandlerRun (decBool startInt) (decList l)).map encNumLit))
+  | ["itervars", kind, js, pfx, query, names, norm] =>
+    let k : IterKind := match kind with | "pandas" => .pandas | "csv" => .csv | "sqlite" => .sqlite | _ => .table
+    some (match iteratorVariablesMap k (decBool js) (decStr query) ((decStr pfx).headD 'a') (if names == "N" then none else some (decList (names.drop 1).toString))
+              (decBool norm) none with
+      | .ok m => encVarMap m
+      | .error .widthMismatch => "err width"
+      | .error (.var (.columnNotFound _)) => "err notfound"
+      | .error (.var (.badDirectName _)) => "err badname"
+      | .error (.var (.ambiguous _)) => "err ambiguous")
   | ["unquotestr", s] => some (match unquoteString (decStr s) with | some v => "S" ++ encStr v | none => "N")
   | _ => none
 
